@@ -47,6 +47,7 @@ func (c *Client) handleSyncMsg(peer map[wallet.BackendID]wire.Address, msg *Chan
 	// Lock machine while replying to sync request.
 	if !ch.machMtx.TryLockCtx(ctx) {
 		log.Errorf("Could not lock machine mutex in time: %v", ctx.Err())
+		return
 	}
 	defer ch.machMtx.Unlock()
 
